@@ -585,6 +585,46 @@ def run(ctx):
     # ---- R10.16: the checker on printed text in which a string stands in front of a range (shared with C11 R11.14)
     C11.left_neighbour_checker(ctx, u, "R10.16")
 
+    # ---- R10.18: "immediately" is one time tag, not a class of them
+    ctx.rule("R10.18", "IMMEDIATELY-IS-ONE: rtosc_arg_val_is_immediatelly, which the printer asks before it writes the word `immediately`, evaluated on time tags, says yes exactly for the 64-bit value 1 - "
+                       "not for a date whose second fraction happens to be 1 (2^-32 s), which the scanner would read back as the value 1")
+    ut18 = ctx.ast("rtosc-time.c")
+    f18 = ut18.function("rtosc_arg_val_is_immediatelly")
+    p18 = ut18.params(f18)[0]
+    probes18 = [(ord("t"), 1, True), (ord("t"), 0, False), (ord("t"), 2, False), (ord("t"), (0x582cb706 << 32) | 1, False), (ord("t"), 1 << 32, False), (ord("t"), (1 << 32) | 1, False),
+                (ord("t"), 0xffffffff00000001, False), (ord("i"), 1, False), (ord("h"), 1, False)]
+    bad18 = []
+    for ty18, val18, want18 in probes18:
+        def hook18(n_, ev_, ty18=ty18, val18=val18):
+            if n_.get("kind") == "MemberExpr":
+                nm_ = n_.get("name")
+                if nm_ == "type":
+                    return ty18
+                if nm_ in ("t", "h"):
+                    return val18
+                if nm_ == "i":
+                    return FD.wrap(val18, ("int", 32, True))
+                if nm_ == "val":
+                    return NotImplemented
+            return NotImplemented
+        h18 = {}
+
+        def call18(nm_, vals_, n_):
+            fs_ = [f_ for f_ in ut18.functions.get(nm_, []) if ut18.body(f_) is not None]
+            if len(fs_) == 1:
+                return h18["ev"].call_function(ut18, fs_[0], vals_)
+            raise FD.Unknown("call to %s" % nm_, n_)
+        ev18 = FD.Eval(node_hook=hook18, call=call18, max_steps=500)
+        h18["ev"] = ev18
+        try:
+            got18 = bool(ev18.call_function(ut18, f18, [4096]))
+        except FD.Unknown as e:
+            raise AnalysisBroken("R10.18: rtosc_arg_val_is_immediatelly is not evaluable: %s" % e)
+        if got18 != want18:
+            bad18.append({"type": chr(ty18), "value": "%#x" % val18, "answers": got18, "expected": want18})
+    ctx.ob("R10.18", "rtosc_arg_val_is_immediatelly", not bad18, site=A.where(f18), detail={"probes": len(probes18), "mismatches": bad18[:4]},
+           what="rtosc_arg_val_is_immediatelly takes other values than the time tag 1 for `immediately`: %s - the printer writes the word, the scanner reads the value 1" % bad18[:3])
+
     # ---- R10.17: the string buffer is advanced by what the last value consumed
     ctx.rule("R10.17", "STRING-BUFFER-ADVANCE: where a loop scans one value after the other into the shared string buffer and advances the buffer by `snapshot - remaining size`, the snapshot is taken from the remaining size "
                        "inside the loop, in front of the scanning call of the same iteration - a snapshot taken once in front of the loop advances the buffer by the cumulative consumption, and later strings overwrite earlier ones")
